@@ -18,7 +18,7 @@ try:
     items.update({i['name']: i for i in mc.SYNC_FAMILIES + mc.DYN_FAMILIES + mc.LIVE_FAMILIES + mc.TX_FAMILIES})
     for r in mc.design(tier, wd, None) + mc.design(tier, wd, None, module='MC_Sync') + mc.design(tier, wd, None, module='MC_Dyn') + mc.design(tier, wd, None, module='MC_Live') + mc.design(tier, wd, None, module='MC_Tx'):
         print('design', r['name'], r['distinct'], r['wall_s'], 'completed' if r['completed'] else ('violated ' + str(r['violated'])), r.get('from_cache'), flush=True)
-    for nm in sorted(set(chk.COVER['quick'] + chk.COVER[tier] + [n for p in ('C08', 'C16', 'C09', 'C12') for d, r, x in chk.SPECIFIC[p]['quick'] + chk.SPECIFIC[p][tier] if d == 'cover' for n in x])):
+    for nm in sorted(set(chk.COVER['quick'] + chk.COVER[tier] + [n for p in ('C08', 'C16', 'C09', 'C12', 'C14') for d, r, x in chk.SPECIFIC[p]['quick'] + chk.SPECIFIC[p][tier] if d in ('cover', 'coverpair') for n in x])):
         nm, _, cap = nm.partition(':')
         p, meta = mc.cover_file(items[nm], wd, mod=int(cap) if cap else 1)
         print('cover', nm, meta.get('leaves'), meta.get('events'), os.path.getsize(p), flush=True)
@@ -29,7 +29,7 @@ names = {i['name']: i for k in mc.NODE_FAMILIES for i in mc.NODE_FAMILIES[k]}
 names.update({i['name']: i for i in mc.SYNC_FAMILIES + mc.DYN_FAMILIES + mc.LIVE_FAMILIES + mc.TX_FAMILIES})
 caps = {}
 for t in chk.COVER:
-    for nm in chk.COVER[t] + [n for p in ('C08', 'C16', 'C09', 'C12') for d, r, x in chk.SPECIFIC[p][t] if d == 'cover' for n in x]:
+    for nm in chk.COVER[t] + [n for p in ('C08', 'C16', 'C09', 'C12', 'C14') for d, r, x in chk.SPECIFIC[p][t] if d in ('cover', 'coverpair') for n in x]:
         nm, _, cap = nm.partition(':')
         caps.setdefault(nm, []).append(int(cap) if cap else 1)
 for f in glob.glob(os.path.join(vlib.VERIF, 'generated', '*')):
